@@ -117,3 +117,8 @@ def run(ctx):
             roots5.append(b_)
     if roots5:
         panics.check_panic_sites(ctx, 'R-C12-5', roots5, floor=0)
+    # R-C12-4 (= R-C01-6): the verifier core rejects on nothing that depends on the capacity of the parameters (or on any other content
+    # of a statement): a proof made under one capacity is not turned away under another
+    from . import C01
+    from .common import shared
+    shared(ctx, lambda c: C01.verifier_content_tests(c, 'R-C01-6'), 'R-C01-6', 'R-C12-4')
